@@ -801,7 +801,7 @@ def _hashable(i):
 
 def _elem_type(ty):
     """static element type of a typed container: 'dict:T', 'list:T', 'tuple:T', 'seq:T'"""
-    if ty and ':' in ty and ty.split(':', 1)[0].split('[', 1)[0] in ('dict', 'list', 'tuple', 'seq', 'enumdict'):
+    if ty and ':' in ty and ty.split(':', 1)[0].split('[', 1)[0] in ('dict', 'list', 'tuple', 'seq', 'enumdict', 'set'):
         return ty.split(':', 1)[1]
     return None
 
